@@ -1,4 +1,27 @@
 add("C12", "checks/c11_c12_status.c", ["default-asan", "default-plain"], ["default-asan", "default-plain"],
-    "placeholder", cflags=["-DCHECK_C12"],
+    "cases = single operations executed on the real library with the registers read back before and after and the control callback "
+    "recorded (value + status byte at the moment of the call). Phase sweep: all 65536 int16_t codes pushed on a fresh context "
+    "(ESR = 0), on a context with ESR preset, and on a full queue (3 x 65536 pushes), ESR compared with the class computed as "
+    "code/100 from the statement's table. Phases bfs and walk: the exploration of C11 (breadth-first over every reachable state of 16 "
+    "(quick) / 32 (thorough, gcc build) bounded operation alphabets: register writes with every subset of three representative bits, "
+    "error push/pop/clear, 19 status commands through SCPI_Input; random walks over full 16-bit values) with the monitors: "
+    "classification of every push; latch: after a condition write event_after contains event_before | (cond_after & ~cond_before); hold: "
+    "event bits disappear only in the register's own query, *CLS, STAT:PRES (QUES), or a write of that register; the own query and "
+    "*CLS leave the register 0; service request: MSS 0->1 across an operation implies at least one control(SCPI_CTRL_SRQ) call, every "
+    "call carries bit 6 and the status byte current at the call (or the final one), no call in an operation with MSS clear before and "
+    "after. On a full queue the code the library queued in place (-350) must set its class bit; what the discarded code sets is not "
+    "asserted. distinct_nontrivial = distinct (registers, count) states + a 1/97 subsample of swept codes",
+    cflags=["-DCHECK_C12"],
     exhaustive=dict(quick=True, thorough=True),
-    technique="placeholder", level_text="placeholder", level_note="placeholder", assumptions=[])
+    technique="runtime monitors (classification table by arithmetic, latch/hold transition relation, callback trace) over an exhaustive code sweep "
+              "and an explicit-state breadth-first exploration of the real library plus random walks",
+    level_text="exploration by execution: all 65536 error codes; every transition of the bounded state spaces of C11 with the callback observed "
+               "(quick ~4.7e7, thorough ~3e9 transitions); full 16-bit values and queue capacities 1-4 sampled by random walks",
+    level_note="exhaustive refers to the code sweep and to the bounded alphabets of the breadth-first slices; repeated announcements while MSS "
+               "stays set are counted, not judged (the statement allows them); the callback value is accepted if it equals the status byte "
+               "read at the call or after the operation; a callback in an operation that ends with MSS cleared is only counted",
+    assumptions=["every operation of the alphabet moves the status byte in one direction only, so MSS clear before and after an operation means clear throughout",
+                 "the code queued on overflow is read from the queue storage (fifo write index - 1)",
+                 "a byte copy of scpi_t plus the queue storage is an exact snapshot when errors carry no text",
+                 "transition filters (PTR/NTR registers) are not configured: the latch is the plain positive-transition latch of the statement",
+                 "gcc -O2 and clang -O1 ASan+UBSan builds of the working tree"])
